@@ -246,6 +246,12 @@ class BoxDomain(ParamsMixin, Domain):
         base = eng.ev(e.value, st)
         if isinstance(base, Opt) and isinstance(base.val, tuple):
             base = base.val
+        if isfp(base) and isinstance(e.slice, ast.Tuple) and len(e.slice.elts) == 2 and isinstance(e.slice.elts[0], ast.Slice) \
+                and not isinstance(e.slice.elts[1], ast.Slice) and ('G', 'col') in st.heap:
+            # a[:, i]: column i of a matrix whose generic element sits in the ghost column G.col
+            i = eng.ev(e.slice.elts[1], st)
+            if isint(i):
+                return z3.If(i == st.heap[('G', 'col')], base, z3.FP(fresh_name('othercol'), F))
         if isfp(base) or isbool(base):
             if not isinstance(e.slice, (ast.Slice, ast.Tuple)):
                 eng.ev(e.slice, st)
@@ -261,7 +267,13 @@ class BoxDomain(ParamsMixin, Domain):
             v2 = self.tofp(v, st)
             if v2 is None:
                 v2 = z3.FP(fresh_name('hv'), F)
-            if isbool(idx):
+            colidx = None
+            if isinstance(t.slice, ast.Tuple) and len(t.slice.elts) == 2 and isinstance(t.slice.elts[0], ast.Slice) and not isinstance(t.slice.elts[1], ast.Slice) \
+                    and ('G', 'col') in st.heap:
+                colidx = eng.ev(t.slice.elts[1], st)
+            if colidx is not None and isint(colidx):
+                nv = z3.If(colidx == st.heap[('G', 'col')], v2, base)     # a[:, i] = v : the generic element changes iff it is in column i
+            elif isbool(idx):
                 nv = z3.If(idx, v2, base)              # boolean-mask store
             elif isinstance(t.slice, ast.Tuple) or isinstance(t.slice, ast.Slice):
                 rows = [x for x in (t.slice.elts if isinstance(t.slice, ast.Tuple) else [t.slice]) if not isinstance(x, ast.Slice)]
@@ -295,6 +307,8 @@ class BoxDomain(ParamsMixin, Domain):
             return z3.fpNaN(F)
         if isfp(base) and attr == 'shape':
             return Shape()
+        if isfp(base) and attr == 'T':
+            return base         # transposition does not change the generic element
         return Domain.load_attr(self, eng, base, attr, st, node)
 
     def b_len(self, eng, node, args, kw, st):
